@@ -99,7 +99,9 @@ def finish(rng, octs, ndim, ncpu, nboundary, levelmax, ghost_p=0.4, **kw):
            "haspart": haspart, "part": part,
            # harness-only fields (ignored by TLC)
            "units": list(kw.get("units") or rng.choice(UNITS)), "boxlen": kw.get("boxlen", rng.choice([1.0, 2.0, 0.5])),
-           "nout": kw.get("nout", rng.choice([1, 7, 12])), "ordering": kw.get("ordering", "hilbert" if ndim < 3 else "planar"),
+           # a Hilbert decomposition gives every cpu a non-empty key interval: with fewer keys than cpus (tiny 1-D/2-D outputs) the
+           # ordering is declared planar, otherwise the DOMAIN table of the info file would contradict the ownership of the octs
+           "nout": kw.get("nout", rng.choice([1, 7, 12])), "ordering": kw.get("ordering", "hilbert" if (ndim < 3 and ncpu <= 2 ** (ndim * (levelmax + 1))) else "planar"),
            "sink": kw.get("sink"), "reqs": [], "hilbert3": False, "bk": []}
     return cfg
 
